@@ -615,7 +615,12 @@ func init() {
 		},
 		Nontrivial: pkgNontrivial, NoShrink: true, Timeout: 30 * time.Second,
 		Rule:        "valid encodings of every package kind with every byte (sampled on long ones) replaced by 00/01/7f/80/fe/ff, random multi-byte mutations with truncation and trailing garbage, hostile 2- and 4-byte little-endian values (0x7fffffff, 0x80000000, 0xffffffff, 0x7fff, 0x8000, 0xffff) at every offset of the first 28 bytes of encodings sampled evenly over every kind's generator (every data type of the format and data packages), and arbitrary bytes after each of the 256 token values; real ReadFrom under recover vs the Lean decoder (outcome class and fields must agree); packet level: the reader loop (Packet.ReadFrom per iteration) on streams of 1..3 packets with every announced length 0..16, every header type/status value, random header fields, truncations and read schedules vs the Lean reader model. value level: GoValue on every data type byte 0..255 with every data length 0..255 (zero, 0xff and random data) vs the Lean value model; allocation probe: every 60th (thorough: 12th) hostile-length case again in a process of its own that measures what it allocates. Non-trivial = well-formed case",
-		NoModel:     func(line string) bool { return strings.HasPrefix(line, "mem ") || strings.HasPrefix(line, "rdconn ") },
+		NoModel: func(line string) bool {
+			if strings.HasPrefix(line, "login ") && (strings.Contains(line, ",kx,") || strings.Contains(line, ",ky,") || strings.Contains(line, ",kq,")) {
+				return true // a length field that announces more than arrives: outside the login model (see C08)
+			}
+			return strings.HasPrefix(line, "mem ") || strings.HasPrefix(line, "rdconn ")
+		},
 		Assumptions: []string{"allocation: PacketQueue.Bytes checks availability before allocating (fix 31957a3); measured for a sample of the hostile-length cases in a process of its own (TotalAlloc while decoding <= 4 MiB + 300 x case length, address space limited to 3 GiB)"},
 	})
 }
